@@ -32,6 +32,8 @@ def run_config(chk, tier, cfgname):
 
 
 def run(chk, tier):
+    from gcv import heap_check
+    heap_check.report(chk, tier, owns=(), fault_owns=("H1", "H2", "H3", "H4", "H6", "PANIC"))
     cfgs = typestate.configs(tier)
     chk.extra["feature_configs"] = cfgs
     for c in cfgs:
